@@ -2,7 +2,7 @@
 # Build the framework from files on disk only (offline): Lean library + driver, Go harness.
 set -e
 cd /verif/lean
-lake build WitnessVerif Driver wdrv
+lake build WitnessVerif wdrv
 cd /verif
 python3 tools/mkoverlay.py
 export GOFLAGS=-mod=mod GOPROXY=off GOSUMDB=off GOTOOLCHAIN=local
